@@ -18,11 +18,15 @@ PLAN  = {"quick":    {"shards": 16, "parallel": 8, "cases": 800,   "timeout": 15
          "thorough": {"shards": 16, "parallel": 8, "cases": 24000, "timeout": 7000, "budget_s": 1500, "mp_every": 10}}
 REQUIRED = ["oracle.triple==solo", "oracle.triple==solo.shared-learner", "oracle.permuted==solo", "oracle.failed-triple-has-no-rows",
             "oracle.failure-logged", "oracle.others-complete-despite-failure", "inject.predict", "inject.learn", "inject.read",
-            "inject.evaluator", "inject.params", "oracle.multiproc.triple==solo", "oracle.solo-in-fresh-process"]
+            "inject.evaluator", "inject.params", "oracle.multiproc.triple==solo", "oracle.solo-in-fresh-process",
+            "oracle.triple==solo.learner-is-logging-policy-elsewhere"]
 ASSUMPTIONS = ["a learner listed in exactly one triple is trained in place by design; only rows are compared, never post-run learner state",
                "only picklable deterministic components; timing columns excluded"]
 
 def gen_case(rng):
+    if rng.random() < .06:
+        # the object-sharing pattern "learner of one triple = logging policy inside the environment of another"
+        return {"spec": X.policy_sharing_spec(rng), "faults": {}, "fault_kind": "none", "perm_seed": rng.randrange(1 << 30)}
     spec = X.gen_spec(rng, max_groups=2, max_lrns=3, max_vals=2)
     # favour stateful learners: any state carried between evaluations changes their action sequence
     for l in spec["lrns"]:
@@ -75,7 +79,9 @@ def check_case(case, ctx=None, workdir=None, use_mp=False):
     n = len(idx)
     shared_l = {l for l in {t[1] for t in idx} if sum(1 for t in idx if t[1] == l) > 1}
     shared_e = {e for e in {t[0] for t in idx} if sum(1 for t in idx if t[0] == e) > 1}
-    pattern = ("L" if shared_l else "") + ("E" if shared_e else "")
+    policy = any(f[0] == "logged_lrn" for g in spec["groups"] for f in g["filters"])     # a listed learner object is a logging policy too
+    pattern = ("L" if shared_l else "") + ("E" if shared_e else "") + ("P" if policy else "")
+    if spec.get("policy_sharing"): note("oracle.triple==solo.learner-is-logging-policy-elsewhere")
     fk = case["fault_kind"]
     struct = (tuple(sorted(l["kind"] for l in spec["lrns"])), tuple(sorted(v["kind"] for v in spec["vals"])), spec["triples"] == "cross", min(n, 6))
     if ctx is not None: ctx.case(("inproc", pattern, fk, struct), nontrivial=bool(pattern))
